@@ -47,7 +47,10 @@ PROP = {'suites': ['c11', 'c11jar'],
          "(the mechanism must be INSIDE the signed object under FAPI; a copy outside does not help), mech_missing_reading_sound + fapi_object_carries_required_mechanisms (what the monitor's clause "
          '11 flags cannot happen in the model). Suite c11jar: three profiles x every required mechanism carried by the authorization parameters (PKCE S256/plain, openid scope, nonce, response type, '
          'response mode, dpop_jkt for the implicit flow) x {/authorize by value, /authorize by reference, /par then /authorize} x JAR optional/required x six placements (inside only, outside only, '
-         'both, neither, inside with nothing outside, outside alone), every code redeemed without code_verifier; correspondence including the parameters of the stored session, monitor mon_C11J.',
+         'both, neither, inside with nothing outside, outside alone), every code redeemed without code_verifier; correspondence including the parameters of the stored session, monitor mon_C11J. The '
+         'probes also send: a plain request and an empty request while a session whose request_uri is already consumed is stored (PAR required must still refuse them); the implicit flow with the '
+         'response type only inside the pushed request and no openid scope, with and without dpop_jkt (an unbound token from the authorization endpoint is read off the response: clauses 7 / 9 apply '
+         'to every form of request).',
  'note': "Request objects: the switches JAR required / CIBA JAR required are proved as 'a request lacking the object is refused' (step_g); requests carrying an object are modelled for /authorize, "
          "/par and /bc-authorize (step_gj; authenticity of the object is C07's subject). The c11 suite's own model (Required.v step_g) knows no per-client CIBA algorithm: that switch is probed in "
          'c11jar. jwt-bearer client authentication: flag only (the grant has no handler model). Resource indicators: resource_required_enforced says that under the switch no authorization request '
